@@ -15,12 +15,13 @@ import (
 // documents
 
 // docTokens is the document-token alphabet (DESIGN §C13 plus '-', a surrogate
-// pair, and a string holding an ill-formed UTF-8 byte).  Tokens are
+// pair, a string holding an ill-formed UTF-8 byte and a string holding a RAW
+// TAB - a control byte that is invalid inside a JSON string).  Tokens are
 // concatenated WITHOUT separators, so sequences also form "11", "1.5",
 // "-1", "1e21", "-9223372036854775808", "100000000000000000000", ...
 var docTokens = []string{
 	"{", "}", "[", "]", ",", ":",
-	`"a"`, "\"\u00e9\"", `"\ud800"`, `"\ud83d\ude00"`, "\"\x80\"",
+	`"a"`, "\"\u00e9\"", `"\ud800"`, `"\ud83d\ude00"`, "\"\x80\"", "\"\t\"",
 	"0", "-0", "1", "1.0", "1e2", "1E+2", "01", "1.", ".5", "-",
 	"9007199254740993", "9223372036854775807", "9223372036854775808", "10000000000000000000", "1e999",
 	"true", "false", "null", "nul",
@@ -366,4 +367,91 @@ func perms4() [][]int {
 		}
 	}
 	return out
+}
+
+// ---------------------------------------------------------------------------
+// byte classes at grammar positions
+
+// stringBodies: raw byte strings placed between two quotes: the empty body,
+// every single byte, every pair over a 48-byte class alphabet (all 32 control
+// bytes, the quote/backslash/escape letters, DEL, UTF-8 lead and continuation
+// bytes) - every pair of bytes in the thorough tier - and every triple over
+// a 12-byte alphabet.
+func stringBodies(thorough bool) [][]byte {
+	var out [][]byte
+	out = append(out, []byte{})
+	for b := 0; b < 256; b++ {
+		out = append(out, []byte{byte(b)})
+	}
+	var c2 []byte
+	if thorough {
+		for b := 0; b < 256; b++ {
+			c2 = append(c2, byte(b))
+		}
+	} else {
+		for b := 0; b < 0x20; b++ {
+			c2 = append(c2, byte(b))
+		}
+		c2 = append(c2, ' ', '"', '\\', '/', 'a', 'u', '0', 0x7f, 0x80, 0xbf, 0xc3, 0xa9, 0xe2, 0xed, 0xf0, 0xff)
+	}
+	for _, x := range c2 {
+		for _, y := range c2 {
+			out = append(out, []byte{x, y})
+		}
+	}
+	c3 := []byte{0x00, 0x09, 0x0a, 0x1f, 'a', '"', '\\', 'n', 0xc3, 0xa9, 0x80, ' '}
+	for _, x := range c3 {
+		for _, y := range c3 {
+			for _, z := range c3 {
+				out = append(out, []byte{x, y, z})
+			}
+		}
+	}
+	return out
+}
+
+// stringShapes place a string literal S at every grammar position a string
+// can take: the whole document, padded, array element, member name, member
+// value.
+var stringShapes = []struct{ pre, post string }{
+	{"", ""}, {" ", ""}, {"", " "}, {"\n", "\t"}, {"[", "]"}, {"[1,", "]"}, {"{", ":1}"}, {`{"k":`, "}"},
+}
+
+// byteTemplates are valid documents - every scalar kind as the whole
+// document, padded, nested - into which every byte 0..255 is inserted at
+// every offset and substituted for every byte.
+var byteTemplates = []string{
+	`"ab"`, `""`, ` "ab" `, `["ab"]`, `{"ab":"cd"}`, "\"\u00e9\"", `"\u00e9"`, `"\n"`,
+	`0`, `-0`, `12`, `1.5`, `1e2`, `-1.5E+2`, ` 1 `, `[1.5e2]`,
+	`true`, `false`, `null`, ` null `, `[true]`, `{"a":true}`,
+	`[]`, `{}`, `[1,2]`, `{"a":1,"b":[null]}`,
+}
+
+type byteEdit struct {
+	tpl, pos int
+	insert   bool
+}
+
+func byteEdits() []byteEdit {
+	var out []byteEdit
+	for t, s := range byteTemplates {
+		for p := 0; p <= len(s); p++ {
+			out = append(out, byteEdit{t, p, true})
+		}
+		for p := 0; p < len(s); p++ {
+			out = append(out, byteEdit{t, p, false})
+		}
+	}
+	return out
+}
+
+func (e byteEdit) apply(b byte) []byte {
+	s := byteTemplates[e.tpl]
+	out := make([]byte, 0, len(s)+1)
+	out = append(out, s[:e.pos]...)
+	out = append(out, b)
+	if e.insert {
+		return append(out, s[e.pos:]...)
+	}
+	return append(out, s[e.pos+1:]...)
 }
